@@ -110,16 +110,24 @@ class Snap(object):
 def spec_to_json(spec):
     d = {'kind': spec['kind'], 'opts': spec['opts'], 'cls': spec['cls'], 'nullable': spec['nullable'],
          'v1': enc(spec['kind'], spec['v1'])}
+    if spec.get('lazy') is not None:
+        d['lazy'] = bool(spec['lazy'])
     if 'v2' in spec:
         d['v2'] = enc(spec['kind'], spec['v2'])
+        if spec.get('v2_mode'):
+            d['v2_mode'] = spec['v2_mode']
     return d
 
 
 def spec_from_json(d):
     spec = {'kind': d['kind'], 'opts': dict(d.get('opts') or {}), 'cls': d.get('cls', 'Optional'),
             'nullable': bool(d.get('nullable', False)), 'v1': dec(d['kind'], d['v1'])}
+    if d.get('lazy') is not None:
+        spec['lazy'] = bool(d['lazy'])
     if 'v2' in d:
         spec['v2'] = dec(d['kind'], d['v2'])
+        if d.get('v2_mode'):
+            spec['v2_mode'] = d['v2_mode']
     return spec
 
 
@@ -134,7 +142,9 @@ def make_attr(spec):
         t = int
         if opts.get('size') is not None: kw['size'] = opts['size']
         if opts.get('unsigned'): kw['unsigned'] = True
-    elif kind == 'float': t = float
+    elif kind == 'float':
+        t = float
+        if 'tolerance' in opts: kw['tolerance'] = opts['tolerance']     # None = exact comparison
     elif kind == 'decimal':
         t = Decimal
         if opts.get('precision') is not None: args = (opts['precision'], opts['scale'])
@@ -158,6 +168,8 @@ def make_attr(spec):
     else: raise ValueError(kind)
     if spec['nullable'] and cls is Optional and kind in EMPTY_VALUE_KINDS:
         kw['nullable'] = True
+    if spec.get('lazy') is not None:
+        kw['lazy'] = bool(spec['lazy'])      # lazy=True: the column is loaded by its own SELECT on first access
     return cls(t, *args, **kw)
 
 
@@ -233,6 +245,127 @@ def nontrivial(kind, opts, v):
 
 # ------------------------------------------------------------------------------------------------
 # hypothesis strategies
+
+def _float_near(v, variant, n):
+    import math
+    if v != v:
+        return 0.0
+    if v in (float('inf'), float('-inf')):
+        return math.copysign(1.7976931348623157e308, v)
+    if variant == 0: return v                                   # the same value assigned again
+    if variant in (1, 2):                                       # n doubles up / down
+        r = v
+        for _ in range(n):
+            r = math.nextafter(r, float('inf') if variant == 1 else float('-inf'))
+    elif variant == 3: r = v * (1.0 + n * 2.0 ** -52)           # a few ulps, relative
+    elif variant == 4: r = v * (1.0 - n * 1e-15)                # relative change of 1e-15 .. 4e-15
+    elif variant == 5: r = v * (1.0 + n * 1e-9)                 # relative change of 1e-9 .. 4e-9
+    elif variant == 6: r = v + n * 1e-12 if abs(v) < 1e3 else v * (1.0 + 1e-13)
+    else: r = -v                                                # sign flip (0.0 <-> -0.0 included)
+    if r != r or r in (float('inf'), float('-inf')):
+        return v
+    return r
+
+
+def neighbour(kind, opts, cls, v, variant, n):
+    """a value of the same declaration that differs from v by a minimal amount (variant 0: not at all);
+    deterministic in (variant, n), which hypothesis draws"""
+    if kind == 'bool':
+        return v if variant == 0 else not v
+    if kind == 'int':
+        lo, hi = int_bounds(opts)
+        r = v + n if variant % 2 else v - n
+        if variant == 0: r = v
+        return r if lo <= r <= hi else (v - n if lo <= v - n else v + n if v + n <= hi else v)
+    if kind == 'float':
+        return _float_near(v, variant, n)
+    if kind == 'decimal':
+        if variant == 0 or not v.is_finite(): return v
+        p, s = decimal_precision(opts), decimal_scale(opts)
+        step = Decimal(10) ** -(s + (1 if variant == 7 else 0)) * n       # variant 7: below the scale
+        r = WIDE_CONTEXT.add(v, step) if variant % 2 else WIDE_CONTEXT.subtract(v, step)
+        if len(r.quantize(Decimal(10) ** -s, context=WIDE_CONTEXT).as_tuple().digits) > p:
+            r = WIDE_CONTEXT.subtract(v, step) if v > 0 else WIDE_CONTEXT.add(v, step)
+        if len(r.quantize(Decimal(10) ** -s, context=WIDE_CONTEXT).as_tuple().digits) > p:
+            return v
+        return r
+    if kind in ('str', 'longstr'):
+        max_len = opts.get('max_len')
+        size = 60 if kind == 'longstr' else 16
+        if max_len is not None: size = min(size, max_len)
+        if variant == 0: return v
+        if variant == 1 and v: r = v.swapcase()
+        elif variant == 2 and len(v) > 1: r = v[:-1]
+        elif len(v) < size: r = v + 'aZ\xe9 0'[variant % 5] if variant != 6 else 'b' + v
+        elif v: r = v[:-1] + ('a' if v[-1] != 'a' else 'b')
+        else: r = v
+        strip = opts.get('autostrip', True)
+        if cls == 'Required' and (r.strip() if strip else r) == '': return v
+        if len(r.strip() if strip else r) > size: return v
+        return r
+    if kind == 'bytes':
+        if variant == 0: return v
+        if variant % 2 and v: return v[:-1] + bytes([v[-1] ^ (1 << (n - 1))])
+        if variant == 2 and v: return v[:-1]
+        return v + bytes([n - 1])
+    if kind == 'date':
+        if variant == 0: return v
+        try: return v + timedelta(days=n if variant % 2 else -n)
+        except OverflowError: return v - timedelta(days=n) if variant % 2 else v + timedelta(days=n)
+    if kind in ('time', 'datetime', 'timedelta'):
+        if variant == 0: return v
+        prec = opts.get('precision')
+        unit = 10 ** (6 - (6 if prec is None else prec)) if variant < 6 else 1     # variants 6, 7: below the precision
+        step = timedelta(microseconds=unit * n) * (1 if variant % 2 else -1)
+        if kind == 'time':
+            us = ((v.hour * 60 + v.minute) * 60 + v.second) * 10 ** 6 + v.microsecond + step // timedelta(microseconds=1)
+            us %= 86400 * 10 ** 6
+            return time(us // (3600 * 10 ** 6), us // (60 * 10 ** 6) % 60, us // 10 ** 6 % 60, us % 10 ** 6)
+        try: return v + step
+        except OverflowError: return v - step
+    if kind == 'uuid':
+        if variant == 0: return v
+        return uuid.UUID(int=(v.int + (n if variant % 2 else -n)) % 2 ** 128)
+    if kind == 'json':
+        v = plain(v)
+        if variant == 0: return v
+        done = []
+
+        def bump(x):        # change the first float / int / str leaf found (depth first) by a minimal amount
+            if done: return x
+            if isinstance(x, dict):
+                return {k: bump(y) for k, y in x.items()}
+            if isinstance(x, list):
+                return [bump(y) for y in x]
+            if isinstance(x, bool) or x is None: return x
+            if isinstance(x, float):
+                r = _float_near(x, 1 + variant % 2, n)
+                if r != x: done.append(1)
+                return r
+            if isinstance(x, int) and variant < 6: done.append(1); return x + n
+            if isinstance(x, str) and variant < 4: done.append(1); return x + 'a'
+            return x
+        r = bump(v)
+        if done: return r
+        if isinstance(v, list): return v + [n]
+        r = dict(v)
+        if '~' in r: del r['~']
+        else: r['~'] = n
+        return r
+    if kind in ('intarray', 'strarray', 'floatarray'):
+        v = list(v)
+        if variant == 0: return v
+        item = {'intarray': n, 'strarray': 'a' * n, 'floatarray': n * 0.1}[kind]
+        if not v or variant == 2: return v + [item]
+        if variant == 3: return v[:-1]
+        if variant == 4: return v[::-1] if v[::-1] != v else v + [item]
+        last = v[-1]
+        if kind == 'intarray': last = last + (n if variant % 2 else -n) if type(last) is int else item
+        elif kind == 'strarray': last = last + 'a'
+        else: last = _float_near(float(last), 1 + variant % 2, n)
+        return v[:-1] + [last]
+    return v
+
 
 _strategy_cache = {}
 
@@ -365,6 +498,8 @@ def _strategies():
             return [{}, {}, {}, {'autostrip': False}]
         if kind in ('time', 'datetime', 'timedelta'):
             return [{}] + [{'precision': p} for p in (0, 1, 3, 5, 6)]
+        if kind == 'float':
+            return [{}, {}, {}, {}, {'tolerance': None}, {'tolerance': 1e-6}]
         return [{}]
 
     value_cache = {}
@@ -388,14 +523,21 @@ def _strategies():
         cls = 'Required' if draw(one_in_four) == 0 else 'Optional'
         nullable = cls == 'Optional' and (kind not in EMPTY_VALUE_KINDS or draw(one_in_four) == 0)
         spec = {'kind': kind, 'opts': opts, 'cls': cls, 'nullable': nullable}
+        k = draw(keep)
+        if k >= 6:
+            spec['lazy'] = k < 9        # 3 in 10 lazy=True, 1 in 10 an explicit lazy=False (LongStr is lazy by default)
         vs = cached_values(kind, opts, cls, nullable)
         spec['v1'] = draw(vs)
-        if draw(st.booleans()):
+        mode = draw(one_in_four)        # 0: no second value, 1-2: an independent one, 3: a minimal change of the first
+        if mode in (1, 2) or (mode == 3 and spec['v1'] is None):
             spec['v2'] = draw(vs)
+        elif mode == 3:
+            spec['v2'] = neighbour(kind, opts, cls, spec['v1'], draw(st.integers(0, 7)), draw(st.integers(1, 4)))
+            spec['v2_mode'] = 'near'
         return spec
 
-    slot_strategies = {kind: spec_strategy(kind) for kind in KINDS}
     keep = st.integers(0, 9)
+    slot_strategies = {kind: spec_strategy(kind) for kind in KINDS}
 
     @st.composite
     def wide_example(draw):
@@ -467,8 +609,9 @@ def evaluate(specs, upd_same=False, filename=None):
 
     def describe(i):
         s = specs[i]
-        return '%s(%s%s%s)' % (s['cls'], s['kind'], ''.join(', %s=%r' % kv for kv in sorted(s['opts'].items())),
-                               ', nullable=True' if s['nullable'] and s['kind'] in EMPTY_VALUE_KINDS else '')
+        return '%s(%s%s%s%s)' % (s['cls'], s['kind'], ''.join(', %s=%r' % kv for kv in sorted(s['opts'].items())),
+                                 ', nullable=True' if s['nullable'] and s['kind'] in EMPTY_VALUE_KINDS else '',
+                                 ', lazy=%r' % s['lazy'] if s.get('lazy') is not None else '')
 
     def read_back(stage, expected):
         """expected: {i: Snap seen by the writing session after flush}"""
